@@ -558,12 +558,16 @@ class Packet(object):
             # once a key is set every packet must be encrypted,
             # decrypt using the given key
             length += PacketHeader.TAG_SIZE
+            if length != len(datagram):
+                raise PacketError("length error")
             iv = datagram[:PacketHeader.IV_SIZE]
             aad = datagram[:PacketHeader.SIZE]
             data = datagram[PacketHeader.SIZE:length]
             pkt.msg = crypto.decrypt_gcm(key, iv, aad, data)
         else:
             # packet is not encrypted: validate the crc
+            if length + PacketHeader.CRC_SIZE != len(datagram):
+                raise PacketError("length error")
             data = datagram[:length]
             crc_actual = crypto.crc32(data)
             crc_expected, = struct.unpack(">L", datagram[length:length+PacketHeader.CRC_SIZE])
